@@ -125,8 +125,9 @@ def check(run):
         run.check(pos, 'R4', 'refusal-positive-delay', T + '::async_connect', ac.loc(f.node), 'the connect timer is not armed with a positive constant before the refusal completion is attached', 'armed with a positive constant delay first')
         resets = [c for c in ac.calls() if (c.get('callee') or '').endswith('::reset') and q.render(ac, c.get('obj')) == 'm_channel']
         run.check(q.any_precedes(ac, resets, f.site), 'R4', 'refusal-leaves-no-channel', T + '::async_connect', ac.loc(f.node), 'the refused connect keeps its channel', 'm_channel.reset() precedes the completion')
-        txt = q.render(ac, f.site)
-        run.check(', ec' in txt or 'ec)' in txt, 'R4', 'refusal-error-bound', T + '::async_connect', ac.loc(f.node), 'refusal completion does not bind the error from internal_connect', 'binds ec')
+        import re as _re
+        txt = p04.closure_text(fx, ac, f)       # bind arguments, or the captures and body of a lambda
+        run.check(bool(_re.search(r'\bec\b', txt.split('(', 1)[1] if '(' in txt else txt)), 'R4', 'refusal-error-bound', T + '::async_connect', ac.loc(f.node), 'refusal completion does not bind the error from internal_connect', 'binds ec')
     ok_slot = [f for f in after if (f.dest or '').startswith('slot:')]
     run.check(bool(ok_slot) and all(any(q.render(ac, a) == 'ec' and not p for a, p in q.guards_at(ac, f.site)) for f in ok_slot), 'R4', 'success-parks-handler', T + '::async_connect', ac.loc(),
               'the connect handler is parked in m_connect_handler on a path where ec may be set', 'handler parked only when internal_connect succeeded')
